@@ -69,7 +69,11 @@ pub fn run_async<T>(fut: impl Future<Output = T>) -> Result<End<T>, String> {
         Ok(end) => Ok(end),
         Err(_) => {
             simkit::exec::abort_cleanup();
-            Err(take_panic().unwrap_or_else(|| "?".into()))
+            let p = take_panic().unwrap_or_else(|| "?".into());
+            if simkit::with(|s| std::mem::replace(&mut s.budget_exceeded, false)) {
+                return Ok(End::StepBudget);
+            }
+            Err(p)
         }
     }
 }
